@@ -178,7 +178,8 @@ pub fn run_c02(a: &Args) {
         n += 1;
         let mut plan = gen_plan(&mut rng);
         plan.intent = if n % 6 == 0 { 2 } else { 3 };
-        let slen = rng.range(1, 64) as usize;
+        // one secret in eight is longer than the 64-byte block of SHA-256 (HMAC then keys with the hash of the secret)
+        let slen = if rng.chance(1, 8) { *rng.pick(&[64usize, 65, 81, 128, 200]) } else { rng.range(1, 64) as usize };
         let secret = if n % 9 == 0 { None } else { Some(rng.bytes(slen)) };
         plan.routing = routing_steps(&mut rng);
         let v0 = Verdicts0::get(&mut rng, &plan);
@@ -217,7 +218,9 @@ pub fn run_c02(a: &Args) {
             2 => { let k = rng.below(valid.len() as u64) as usize; ("truncated", Some(valid[..k].to_vec())) }
             3 => { let k = rng.below(32 * 8) as usize; let mut v = valid.clone(); v[k / 8] ^= 1 << (k % 8); ("tag-bit-flip", Some(v)) }
             4 => { let k = 32 * 8 + rng.below((valid.len() as u64 - 32) * 8) as usize; let mut v = valid.clone(); v[k / 8] ^= 1 << (k % 8); ("body-bit-flip", Some(v)) }
-            5 => ("other-secret", Some(oracle::sign(b"another secret", &valid[32..]))),
+            5 => { // another secret; for long secrets one that differs only after its 64th byte
+                let other: Vec<u8> = if key.len() > 64 { let mut k = key.clone(); let l = k.len() - 1; k[l] ^= 0x55; k } else { b"another secret".to_vec() };
+                ("other-secret", Some(oracle::sign(&other, &valid[32..]))) }
             6 => ("non-json", Some(oracle::sign(&key, b"this is not json"))),
             7 => ("wrong-shape", Some(oracle::sign(&key, br#"{"timestamp": 1, "user_name": "x"}"#))),
             8 => ("length-31", Some(valid[..31].to_vec())),
@@ -369,6 +372,7 @@ pub fn run_c03(a: &Args) {
 pub fn run_c10(a: &Args) {
     let mut rng = Rng::new(a.seed);
     let mut cases = vec![];
+    let mut slow_logins = 0;
     while cases.len() < a.cases {
         let mut plan = gen_plan(&mut rng);
         plan.intent = *rng.pick(&[2, 3]);
@@ -383,9 +387,21 @@ pub fn run_c10(a: &Args) {
         // configured expiries up to "never" (u64::MAX): a freshly issued cookie is within every one of them
         sc.expiry = *rng.pick(&[21600u64, 21600, 60, u64::MAX, u64::MAX - 5, 1 << 40]);
         sc.steps = render(&plan, secret.is_some());
+        // a slow login (up to three per run): the client takes 2.2 s of REAL time before it sends Client Information; the cookie
+        // issued afterwards is stamped with the time of its issue, not with a time read when the login began
+        let slow_login = slow_logins < 3 && secret.is_some() && plan.intent == 2 && matches!(sc.verdicts.select, Ok(Some(_)));
+        if slow_login {
+            slow_logins += 1;
+            if let Some(i) = sc.steps.iter().position(|s| matches!(s, Step::Frame(p) if p.as_slice() == [3u8])) { sc.steps.insert(i + 1, Step::RealSleep(2_200)); }
+        }
         let o1 = exec(&sc);
         let f = facts(&sc, &plan, true);
-        let why = oracle::c10(&f, &o1);
+        let mut why = oracle::c10(&f, &o1);
+        if slow_login {
+            if let Some(ts) = oracle::sends(&o1).iter().find_map(|p| match p { crate::conn::decode::CbPacket::StoreCookie { key, payload } if key == b"passage:authentication" && payload.len() > 32 => serde_json::from_slice::<serde_json::Value>(&payload[32..]).ok().and_then(|j| j["timestamp"].as_u64()), _ => None }) {
+                if ts + 1 < o1.wall_after { why.push(format!("the cookie was issued at about {} but is stamped {ts}: {} s of its lifetime were gone at issue (the login took 2.2 s)", o1.wall_after, o1.wall_after - ts)); }
+            }
+        }
         let stored = oracle::sends(&o1).iter().find_map(|p| match p { crate::conn::decode::CbPacket::StoreCookie { key, payload } if key == b"passage:authentication" => Some(payload.clone()), _ => None });
         cases.push(case_of(&o1, why, format!("first:{}:{}:{}", if secret.is_some() { "secret" } else { "nosecret" }, if stored.is_some() { "issued" } else { "none" }, reach(&o1))));
         // second connection: reconnect with what was stored, Transfer intent, same IP
